@@ -254,6 +254,19 @@ func (r *rewriter) hooksIn(e ast.Node) []ast.Stmt {
 					r.mapW[x.Args[0]] = true
 				}
 			}
+			// &x.f handed to a sync/atomic function is the atomic access itself, not an escaping address
+			if sel, ok := x.Fun.(*ast.SelectorExpr); ok {
+				if id, ok := sel.X.(*ast.Ident); ok {
+					if pn, ok := info.Uses[id].(*types.PkgName); ok && (pn.Imported().Path() == "sync/atomic" || id.Name == "simrt") && len(x.Args) > 0 {
+						if u, ok := x.Args[0].(*ast.UnaryExpr); ok && u.Op == token.AND {
+							skip[u] = true
+							if fs, ok := u.X.(*ast.SelectorExpr); ok {
+								skip[fs] = true
+							}
+						}
+					}
+				}
+			}
 			// package-level objects of foreign types (big.Int constants, scratch buffers, hashers) used through
 			// method calls: the variable is never assigned, yet the object behind it may be mutated
 			if sel, ok := x.Fun.(*ast.SelectorExpr); ok {
@@ -275,7 +288,7 @@ func (r *rewriter) hooksIn(e ast.Node) []ast.Stmt {
 				}
 			}
 		case *ast.UnaryExpr:
-			if x.Op == token.AND {
+			if x.Op == token.AND && !skip[x] {
 				if sel, ok := x.X.(*ast.SelectorExpr); ok {
 					if s := info.Selections[sel]; s != nil && s.Kind() == types.FieldVal && r.sharedField(s) && !isMutex(s.Type()) {
 						// fine when the field is itself a shared struct (its own field accesses are hooked
@@ -340,6 +353,16 @@ func (r *rewriter) hooksIn(e ast.Node) []ast.Stmt {
 	})
 	return out
 }
+
+var atomicShims = func() map[string]bool {
+	m := map[string]bool{"Value": true, "Int64": true, "Int32": true, "Uint64": true, "Uint32": true, "Bool": true, "LoadPointer": true, "StorePointer": true}
+	for _, op := range []string{"Load", "Store", "Add", "Swap", "CompareAndSwap"} {
+		for _, t := range []string{"Int64", "Int32", "Uint64", "Uint32"} {
+			m[op+t] = true
+		}
+	}
+	return m
+}()
 
 var bigReadOnly = map[string]bool{"Cmp": true, "CmpAbs": true, "Sign": true, "Bytes": true, "Int64": true, "Uint64": true, "IsInt64": true, "IsUint64": true,
 	"BitLen": true, "Bit": true, "Bits": true, "String": true, "Text": true, "Append": true, "Format": true, "FillBytes": true, "ProbablyPrime": true,
@@ -548,7 +571,13 @@ func (r *rewriter) rewriteFile() {
 					r.unsupported(x.Pos(), "sync."+x.Sel.Name+" (no shim)")
 				}
 			case "sync/atomic":
-				r.unsupported(x.Pos(), "sync/atomic."+x.Sel.Name+" (no shim)")
+				if atomicShims[x.Sel.Name] {
+					id.Name = "simrt"
+					r.usedRT = true
+					stats["atomic"]++
+				} else {
+					r.unsupported(x.Pos(), "sync/atomic."+x.Sel.Name+" (no shim)")
+				}
 			case "time":
 				if x.Sel.Name == "Now" {
 					id.Name = "simrt"
@@ -609,7 +638,11 @@ func fixImports(f *ast.File, needRT bool, src []byte) {
 		for _, sp := range gd.Specs {
 			is := sp.(*ast.ImportSpec)
 			p, _ := strconv.Unquote(is.Path.Value)
-			if (p == "sync" || p == "time") && is.Name == nil && !uses(p) {
+			base := p
+			if p == "sync/atomic" {
+				base = "atomic"
+			}
+			if (p == "sync" || p == "time" || p == "sync/atomic") && is.Name == nil && !uses(base) {
 				continue
 			}
 			keep = append(keep, sp)
